@@ -22,6 +22,10 @@ func GenericOracle(sc *Scenario, w *World, x *Exec) []Violation {
 		vs = append(vs, Violation{Prop: "C01", Rule: "frames-immutable-after-send", Sig: "msg:frame-modified-after-send",
 			Detail: "grpc lets a transport use a message lazily, so it must not be modified after Send/SendMsg returned: " + strings.Join(w.FrameMutations, "; ")})
 	}
+	if len(w.ContractViolations) > 0 {
+		vs = append(vs, Violation{Prop: "C15", Rule: "carrier-stream-contract", Sig: "conc:concurrent-calls-on-carrier-stream",
+			Detail: "grpc allows one sender and one receiver per stream: " + strings.Join(w.ContractViolations, "; ")})
+	}
 	limit := sc.Opt.AllocLimit
 	if limit == 0 {
 		limit = DefaultAllocLimit
